@@ -10,6 +10,7 @@ import PqV.Drv.Merge
 import PqV.Drv.Thrift
 import PqV.Drv.Dtype
 import PqV.Drv.File
+import PqV.Drv.Nested
 /-
   `pqv` — line-protocol driver over the executable definitions of PqV (Spec, Impl, Gen).
   One request per line on stdin, one reply per line on stdout.  Pure per line.
@@ -36,6 +37,7 @@ def handleLine (line : String) : String :=
     | "thrift" => handleThrift op a
     | "dtype" => handleDtype op a
     | "file" => handleFile op a
+    | "nested" => handleNested op a
     | _ => s!"err unknown-stream {stream}"
   | _ => "err bad-request"
 
